@@ -263,13 +263,21 @@ class Session(object):
                 continue
             smt = solver_mod.to_smt2(o.pc, o.goal, o.expect)
             jobs.append((i, smt, want_models))
+        # identical queries (same path prefix, different option forks) are
+        # solved once
+        uniq = {}
+        for j in jobs:
+            uniq.setdefault(j[1], []).append(j[0])
+        ujobs = [(idxs[0], smt, want_models) for smt, idxs in uniq.items()]
+        self.unique_queries = len(ujobs)
         t0 = time.time()
-        out = solver_mod.solve_all(jobs)
+        out = solver_mod.solve_all(ujobs)
         self.solve_wall = time.time() - t0
         verdicts = dict(pre)
-        for idx, v, m, backend, secs, log in out:
-            verdicts[idx] = (v, m, backend, secs, log)
         smts = {j[0]: j[1] for j in jobs}
+        for idx, v, m, backend, secs, log in out:
+            for k, other in enumerate(uniq[smts[idx]]):
+                verdicts[other] = (v, m, backend, secs if k == 0 else 0.0, log)
         results = {}
         for i, o in enumerate(obs):
             v, m, backend, secs, log = verdicts[i]
